@@ -4,6 +4,7 @@ package main
 // reflect.Value / reflect.Type can have under the facts of the current path.
 
 import (
+	"strings"
 	"go/types"
 
 	"golang.org/x/tools/go/ssa"
@@ -65,6 +66,46 @@ func (ke *kindEnv) base(st *pstate, a *Sym) KindSet {
 		return ksAll
 	}
 	switch a.K {
+	case sOpaque:
+		// a loop-carried value after widening: the join of what its phi can merge, as far as that is fixed by the
+		// producing calls alone (reflect.MakeSlice / Append yield slices, MakeMap yields a map)
+		if phi, ok := a.V.(*ssa.Phi); ok && strings.HasPrefix(a.Str, "havoc") && isReflectValue(phi.Type()) {
+			seen := map[*ssa.Phi]bool{}
+			var join func(p *ssa.Phi) (KindSet, bool)
+			join = func(p *ssa.Phi) (KindSet, bool) {
+				if seen[p] {
+					return 0, true
+				}
+				seen[p] = true
+				var out KindSet
+				for _, e := range p.Edges {
+					switch x := e.(type) {
+					case *ssa.Phi:
+						k, ok := join(x)
+						if !ok {
+							return 0, false
+						}
+						out |= k
+					case *ssa.Call:
+						switch f := x.Call.StaticCallee(); {
+						case isReflectFunc(f, "MakeSlice"), isReflectFunc(f, "Append"), isReflectFunc(f, "AppendSlice"):
+							out |= ks(kSlice)
+						case isReflectFunc(f, "MakeMap"), isReflectFunc(f, "MakeMapWithSize"):
+							out |= ks(kMap)
+						default:
+							return 0, false
+						}
+					default:
+						return 0, false
+					}
+				}
+				return out, true
+			}
+			if out, ok := join(phi); ok && out != 0 {
+				return out
+			}
+		}
+		return ksAll
 	case sTypeOf:
 		return ke.kinds(st, a.A) &^ ks(kInvalid)
 	case sTElem, sTKey:
